@@ -7,7 +7,7 @@ then completed fairly and checked at quiescence; then a fresh block and a transa
 completion is run."""
 import hashlib
 
-from .. import enc, ledger, refmodel, seams, simnet, world
+from .. import enc, ledger, refmodel, seams, simnet, thrscen, world
 from ..world import K
 
 LEVEL = 'model_checking'
@@ -709,6 +709,11 @@ def _any_worker(arg):
 
 
 def run(ctx):
+    # ---- the thread dimension first (its workers are forked before this module's seams are installed): a transaction
+    #      broadcast from the main thread (as skepticoin-send does) while the networking thread handles deliveries
+    thr = thrscen.run(ctx, 'MN', 1 if ctx.quick else 2, names=['broadcast-vs-valid-block-delivery',
+                                                                'broadcast-vs-transaction-delivery'], only=['C10:'])
+    ctx.cov['thread_schedules'] = thr
     setup_worker()
     C = configs(ctx)
     # ---- (ii) deviation-bounded, all configurations
@@ -787,6 +792,8 @@ def run(ctx):
 
 
 def replay(data, ctx):
+    if 'thread_scenario' in data:
+        return thrscen.replay(data)
     setup_worker()
     C = configs(type(ctx)(ctx.pid, 'thorough', 0))
     cfg = C[data['cfg']]
